@@ -6,6 +6,7 @@ import (
 	"time"
 
 	"github.com/ipld/go-ipld-prime/datamodel"
+	"github.com/ipld/go-ipld-prime/node/basicnode"
 	"github.com/libp2p/go-libp2p/core/crypto"
 	"github.com/libp2p/go-libp2p/core/crypto/pb"
 
@@ -61,6 +62,14 @@ func c07Future(tag string) time.Time {
 	return time.Unix(sec, nsec)
 }
 
+// c07Any: any instant whatever (past, year 1, far future), whole seconds.
+func c07Any(tag string) time.Time {
+	delta := vI64(tag + "_delta")
+	vAssume(delta > -(1 << 62))
+	vAssume(delta < 1<<62-1<<41)
+	return time.Unix(c07Now+delta, 0)
+}
+
 func c07Cmd() command.Command {
 	s := vString("cmd", 1+vChoose("cmd_len", vParam("L")))
 	for i := 0; i < len(s); i++ {
@@ -84,11 +93,11 @@ func VerifC07Inv() {
 	iss, sub := did.MustParse(c10DidA), did.MustParse(c10DidB)
 	var opts []Option
 	if vChoose("with_exp", 2) == 1 {
-		opts = append(opts, WithExpiration(c07Future("exp")))
+		opts = append(opts, WithExpiration(c07Any("exp")))
 	}
 	switch vChoose("iat", 3) {
 	case 1:
-		opts = append(opts, WithInvokedAt(c07Future("iat")))
+		opts = append(opts, WithInvokedAt(c07Any("iat")))
 	case 2:
 		opts = append(opts, WithoutInvokedAt())
 	}
@@ -103,8 +112,11 @@ func VerifC07Inv() {
 	if vChoose("with_aud", 2) == 1 {
 		opts = append(opts, WithAudience(iss))
 	}
-	if vChoose("with_meta", 2) == 1 {
+	switch vChoose("with_meta", 3) {
+	case 1:
 		opts = append(opts, WithMeta("k", c07Int("meta")))
+	case 2: // an IPLD node is an accepted metadata value and is taken as it is
+		opts = append(opts, WithMeta("k", basicnode.NewInt(vI64("meta_node"))))
 	}
 	if vChoose("with_arg", 2) == 1 {
 		opts = append(opts, WithArgument("a", c07Int("arg")))
